@@ -6,7 +6,7 @@
 
 namespace sim {
 
-long Tracked::copies = 0, Tracked::moves = 0, Tracked::live = 0;
+std::atomic<long> Tracked::copies{0}, Tracked::moves{0}, Tracked::live{0};
 
 static ShapeFns g_fns[1024];
 ShapeReg::ShapeReg(int id, const char* file, MakeFn a, MakeFn m) { g_fns[id].file = file; g_fns[id].make[0] = a; g_fns[id].make[1] = m; }
@@ -18,45 +18,22 @@ Globals& globals() { static Globals g; return g; }
 volatile int g_last_op_kind = -1;
 
 // ---------------- clause hooks ----------------
-static CallCtx* top_ctx() {
-  if (!g_cur || g_cur->ctx_stack.empty()) return nullptr;
-  return g_cur->ctx_stack.back();
-}
-static void log_clause(char kind, int id, int k, long v, const void* a1, const void* a2) {
-  if (!g_cur) return;
-  long ms = (id >= 0 && static_cast<size_t>(id) < g_cur->M.exps.size()) ? g_cur->M.exps[static_cast<size_t>(id)].snap : 0;
-  g_cur->cur_obs().clauses.push_back(ClauseEv{kind, id, k, v, a1, a2, ms});
-}
+thread_local ClauseSink* t_sink = nullptr;
+static inline void log_clause(char kind, int id, int k, long v, const void* a1, const void* a2) { if (t_sink) t_sink->clause_log(kind, id, k, v, a1, a2); }
+static inline void point() { if (t_sink) t_sink->clause_point(); }
 bool w(int id, int k, bool cond) { log_clause('W', id, k, cond ? 1 : 0, nullptr, nullptr); return cond; }
-void se(int id, int k, int snap, const void* a1, const void* a2) {
-  log_clause('S', id, k, snap, a1, a2);
-  if (CallCtx* c = top_ctx()) g_cur->clause_point(*c);
+void se(int id, int k, int snap, const void* a1, const void* a2) { log_clause('S', id, k, snap, a1, a2); point(); }
+int ret(int id, int snap, const void* a1, const void* a2) { log_clause('R', id, 0, snap, a1, a2); point(); return id * 8 + (snap & 7); }
+int& retref(int id, int snap, int& target, const void* a1) { log_clause('R', id, 0, snap, a1, &target); point(); return target; }
+std::string rets(int id, int snap, const void* a1) { log_clause('R', id, 0, snap, a1, nullptr); point(); return std::to_string(id * 8 + (snap & 7)); }
+std::runtime_error thr_std(int id, int snap) { log_clause('R', id, 0, snap, nullptr, nullptr); point(); return std::runtime_error("inst " + std::to_string(id)); }
+int thr_int(int id, int snap) { log_clause('R', id, 0, snap, nullptr, nullptr); point(); return id; }
+
+void ExecImpl::clause_log(char kind, int id, int k, long v, const void* a1, const void* a2) {
+  long ms = (id >= 0 && static_cast<size_t>(id) < M.exps.size()) ? M.exps[static_cast<size_t>(id)].snap : 0;
+  cur_obs().clauses.push_back(ClauseEv{kind, id, k, v, a1, a2, ms});
 }
-int ret(int id, int snap, const void* a1, const void* a2) {
-  log_clause('R', id, 0, snap, a1, a2);
-  if (CallCtx* c = top_ctx()) g_cur->clause_point(*c);
-  return id * 8 + (snap & 7);
-}
-int& retref(int id, int snap, int& target, const void* a1) {
-  log_clause('R', id, 0, snap, a1, &target);
-  if (CallCtx* c = top_ctx()) g_cur->clause_point(*c);
-  return target;
-}
-std::string rets(int id, int snap, const void* a1) {
-  log_clause('R', id, 0, snap, a1, nullptr);
-  if (CallCtx* c = top_ctx()) g_cur->clause_point(*c);
-  return std::to_string(id * 8 + (snap & 7));
-}
-std::runtime_error thr_std(int id, int snap) {
-  log_clause('R', id, 0, snap, nullptr, nullptr);
-  if (CallCtx* c = top_ctx()) g_cur->clause_point(*c);
-  return std::runtime_error("inst " + std::to_string(id));
-}
-int thr_int(int id, int snap) {
-  log_clause('R', id, 0, snap, nullptr, nullptr);
-  if (CallCtx* c = top_ctx()) g_cur->clause_point(*c);
-  return id;
-}
+void ExecImpl::clause_point() { if (!ctx_stack.empty()) clause_point(*ctx_stack.back()); }
 
 void ExecImpl::clause_point(CallCtx& c) {
   int j = c.action_idx++;
@@ -97,7 +74,8 @@ void ExecImpl::install_reporter() {
 ExecImpl::ExecImpl(bool shadow_) : shadow(shadow_) {
   if (!shadow) {
     g_cur = this;
-    Tracked::copies = Tracked::moves = 0;
+    t_sink = this;
+    Tracked::copies = 0; Tracked::moves = 0;
     install_reporter();
   }
 }
@@ -105,6 +83,7 @@ ExecImpl::~ExecImpl() {
   if (!shadow) {
     final_cleanup();
     g_cur = nullptr;
+    t_sink = nullptr;
   }
 }
 
